@@ -117,3 +117,8 @@ example : exWorld.rcv.fileStatus = .Retained ∧ exWorld.rcv.delivery = .Complet
 end Cfdp.Net
 
 #print axioms Cfdp.Net.C01_two_party
+#print axioms Cfdp.Loop.C01_delivered_is_source
+#print axioms Cfdp.Loop.good_recvStep
+#print axioms Cfdp.Recv.fin_core
+#print axioms Cfdp.Recv.dataOk_complete
+#print axioms Cfdp.Recv.writeAt_get
